@@ -92,7 +92,8 @@ FltDivV(x0, y0) ==
     ELSE NormV(Val(x.n \div y.n, x.e - y.e))      \* exact: remainder is 0
 
 (* ---- terms <-> values --------------------------------------------------- *)
-ValOf(t) == [n |-> t.n, e |-> t.e, tag |-> t.s]
+(* "-0" is the float negative zero: numerically zero *)
+ValOf(t) == [n |-> t.n, e |-> t.e, tag |-> IF t.s = "-0" THEN "" ELSE t.s]
 IntTerm(v) == LET w == NormV(v) IN T("int", "", w.n, w.e, <<>>, <<>>)
 FltTerm(v) == LET w == NormV(v) IN T("flt", w.tag, w.n, w.e, <<>>, <<>>)
 (* canonical (normalised) form of a numeric term; other terms unchanged      *)
